@@ -633,3 +633,99 @@ Definition init (kinds : list nat) : state :=
 Definition run (kinds : list nat) (ops : list op) : state := fold_left (fun s o => fst (step kinds s o)) ops (init kinds).
 
 End Co.
+
+(* ------------------------------------------------------------------------------------------------ *)
+(* A node with SEVERAL output modules, each with its own controllers                                 *)
+(* ------------------------------------------------------------------------------------------------ *)
+Module Mo.
+
+(* layout: one list of controller kinds per output module.  register_input creates inputCallbacks on the INSTANCE
+   (source fact input_callbacks_per_instance), so every loop over the registered callbacks of output k reaches the
+   controllers of output k only: an operation addressed to output k is Co.step on the k-th component.
+   Events of output k carry the parameter id of Co plus 100 * k. *)
+Record state := { outs : list Co.state; log : list ev }.
+
+Definition tag (k : nat) (e : ev) : ev := (fst e + 100 * k, snd e).
+Definition co0 : Co.state := Co.init [].
+
+Definition step (Ls : list (list nat)) (s : state) (ko : nat * Co.op) : state * res :=
+  let '(k, o) := ko in
+  if k <? length (outs s) then
+    let c := nth k (outs s) co0 in
+    let '(c', r) := Co.step (nth k Ls []) c o in
+    let fresh := firstn (length (Co.evs c') - length (Co.evs c)) (Co.evs c') in
+    ({| outs := set_nth k c' (outs s); log := map (tag k) fresh ++ log s |}, r)
+  else (s, RErr 9).
+
+Definition init (Ls : list (list nat)) : state := {| outs := map Co.init Ls; log := [] |}.
+Definition run (Ls : list (list nat)) (ops : list (nat * Co.op)) : state :=
+  fold_left (fun s o => fst (step Ls s o)) ops (init Ls).
+
+(* the operations of a history that are addressed to output k *)
+Fixpoint ops_for (k : nat) (ops : list (nat * Co.op)) : list Co.op :=
+  match ops with
+  | [] => []
+  | (k', o) :: r => if Nat.eqb k' k then o :: ops_for k r else ops_for k r
+  end.
+
+End Mo.
+
+(* ------------------------------------------------------------------------------------------------ *)
+(* Two threads on one module with a struct parameter (accessLock)                                    *)
+(* ------------------------------------------------------------------------------------------------ *)
+Module Cs.
+
+(* Every wrapped read_ / write_ method is  [acquire accessLock; body; release]  (source fact
+   read_wrapper_announces_inside_access_lock: the announceUpdate calls are inside the with statement).
+   A thread works through its program; per operation it makes three moves:
+     phase 0 -> 1  acquire (only when nobody holds the lock; otherwise the thread stays blocked = the move is a stutter)
+     phase 1 -> 2  first part of the body; for read_<struct> of the layout without combined methods this is the
+                   collection of the members (nr_read_all), the result is kept in [pend]; for every other operation
+                   it is the whole body
+     phase 2 -> 0  rest of the body (read_<struct>: announceUpdate of the collected dict, or of the error), release,
+                   the operation is appended to the linearisation [lin]
+   A schedule is a list of thread choices (false = thread A, true = thread B). *)
+Record thread := { todo : list St.op; phase : nat; pend : option (list Z) }.
+Record state := { sst : St.state; holder : option bool; ta : thread; tb : thread; lin : list St.op }.
+
+Definition split_read (L : St.layout) (o : St.op) : bool :=
+  match o with St.ReadS => negb (St.sl_rw L) | _ => false end.
+
+Definition collect (L : St.layout) (o : St.op) (s : St.state) : St.state * option (list Z) :=
+  if split_read L o then St.nr_read_all L (seq 0 (St.sl_n L)) s else (fst (St.step L s o), None).
+
+Definition finish (L : St.layout) (o : St.op) (p : option (list Z)) (s : St.state) : St.state :=
+  if split_read L o then match p with Some vs => St.ann_struct_quiet vs s | None => St.ann_err_struct s end else s.
+
+Definition get (c : state) (t : bool) : thread := if t then tb c else ta c.
+Definition put (c : state) (t : bool) (th : thread) (s : St.state) (h : option bool) (l : list St.op) : state :=
+  if t then {| sst := s; holder := h; ta := ta c; tb := th; lin := l |}
+  else {| sst := s; holder := h; ta := th; tb := tb c; lin := l |}.
+
+Definition move (L : St.layout) (c : state) (t : bool) : state :=
+  let th := get c t in
+  match todo th with
+  | [] => c
+  | o :: rest =>
+      match phase th with
+      | 0 => match holder c with
+             | None => put c t {| todo := todo th; phase := 1; pend := None |} (sst c) (Some t) (lin c)
+             | Some _ => c
+             end
+      | 1 => let '(s1, p) := collect L o (sst c) in
+             put c t {| todo := todo th; phase := 2; pend := p |} s1 (holder c) (lin c)
+      | _ => put c t {| todo := rest; phase := 0; pend := None |} (finish L o (pend th) (sst c)) None (o :: lin c)
+      end
+  end.
+
+Definition init (L : St.layout) (pa pb : list St.op) : state :=
+  {| sst := St.init L; holder := None; ta := {| todo := pa; phase := 0; pend := None |};
+     tb := {| todo := pb; phase := 0; pend := None |}; lin := [] |}.
+
+Definition run (L : St.layout) (pa pb : list St.op) (sched : list bool) : state :=
+  fold_left (move L) sched (init L pa pb).
+
+Definition quiescent (c : state) : bool :=
+  match todo (ta c), todo (tb c) with [], [] => true | _, _ => false end.
+
+End Cs.
